@@ -1,7 +1,144 @@
-/- C06 line-protocol driver (core-only). Stub until the property's model lands. -/
+/- C06 line-protocol driver (core-only).
+
+  run  <flags> <tx> <idx> <spent> <oracle>            → ok | err | miss
+  core <EXPECTED> <flags> <tx> <idx> <spent> <oracle> → ok | err:<CLASS> (or ok | err when EXPECTED = FAIL)
+  collect <flags> <tx> <idx> <spent> <oracle>         → the oracle queries still unanswered (`,`-joined) or -
+  runtx / coretx <EXPECTED> / collecttx               → the same over every input of the transaction
+  sha1 | ripemd160 | sha256 | hash160 <hex>           → digest
+  num <hex> <minimal 0|1> <maxlen>                    → value | err ;  numenc <int> → hex
+  sighash legacy|v0|tap …                             → digest | none
+  tok <script>                                        → opcode:datalen,… | err
+  expect <value> <op> <args…>                         → answer of <op> (the Go side echoes <value>)
+
+flags = btcd's numeric ScriptFlags; spent = amount:scriptPubKey,… (one per input); oracle = q=a,… | -
+-/
+import BV.C06.Checker
 namespace BV.C06.Driver
+open BV.Hex BV.C06
+
+def hexE (s : String) : Option Bytes := if s.isEmpty then some [] else hexToList? s
+
+def parseSpent (s : String) : Option (List TxOut) :=
+  if s == "-" then some [] else
+  (s.splitOn ",").mapM (fun e =>
+    match e.splitOn ":" with
+    | [a, sc] => do
+      let a ← a.toNat?
+      let sc ← hexE sc
+      some { value := a, script := sc }
+    | _ => none)
+
+def parseOracle (s : String) : List (String × String) :=
+  if s == "-" then [] else
+  (s.splitOn ",").filterMap (fun e =>
+    match e.splitOn "=" with
+    | [q, a] => some (q, a)
+    | _ => none)
+
+def parseSpend (tx idx spent oracle : String) : Option Spend := do
+  let txb ← hexToList? tx
+  let tx ← parseTx txb
+  let idx ← idx.toNat?
+  let spent ← parseSpent spent
+  if idx ≥ tx.ins.length || spent.length != tx.ins.length then none else
+  some { tx := tx, idx := idx, spent := spent, oracle := parseOracle oracle }
+
+def showResult (withClass : Bool) : R Unit → String
+  | .ok _ => "ok"
+  | .error (.ORACLE _) => "miss"
+  | .error e => if withClass then "err:" ++ e.name else "err"
+
+/-- collect mode: answer every missing query with the assumption "?" (treated as true) and go on, so that
+one pass reports (almost) all the queries a spend needs. -/
+def collect (sp : Spend) (fl : Flags) : Nat → List String → List String
+  | 0, acc => acc
+  | fuel + 1, acc =>
+    match sp.verify fl with
+    | .error (.ORACLE q) => collect { sp with oracle := (q, "?") :: sp.oracle } fl fuel (q :: acc)
+    | _ => acc
+
+def parseAnnex (s : String) : Option (Option Bytes) :=
+  if s == "none" then some none else (hexE s).map some
 
 def handle : List String → String
-  | _ => "unimplemented"
+  | "expect" :: _ :: rest => handle rest
+  | ["run", fl, tx, idx, spent, oracle] =>
+    match fl.toNat?, parseSpend tx idx spent oracle with
+    | some fl, some sp => showResult false (sp.verify (Flags.ofNat fl))
+    | _, _ => "bad-op"
+  | ["core", expected, fl, tx, idx, spent, oracle] =>
+    match fl.toNat?, parseSpend tx idx spent oracle with
+    | some fl, some sp => showResult (expected != "FAIL") (sp.verify (Flags.ofNat fl))
+    | _, _ => "bad-op"
+  | ["collect", fl, tx, idx, spent, oracle] =>
+    match fl.toNat?, parseSpend tx idx spent oracle with
+    | some fl, some sp =>
+      let ms := collect sp (Flags.ofNat fl) 5000 []
+      if ms.isEmpty then "-" else ",".intercalate ms.reverse
+    | _, _ => "bad-op"
+  | ["collecttx", fl, tx, _, spent, oracle] =>
+    match fl.toNat?, parseSpend tx "0" spent oracle with
+    | some fl, some sp =>
+      let ms := (List.range sp.tx.ins.length).foldl
+        (fun acc i => collect { sp with idx := i, oracle := acc.map (fun q => (q, "?")) ++ sp.oracle } (Flags.ofNat fl) 5000 acc) []
+      if ms.isEmpty then "-" else ",".intercalate ms.reverse
+    | _, _ => "bad-op"
+  | ["runtx", fl, tx, _, spent, oracle] =>
+    match fl.toNat?, parseSpend tx "0" spent oracle with
+    | some fl, some sp =>
+      showResult false ((List.range sp.tx.ins.length).foldl
+        (fun acc i => match acc with
+          | .ok _ => ({ sp with idx := i } : Spend).verify (Flags.ofNat fl)
+          | e => e) (.ok ()))
+    | _, _ => "bad-op"
+  | ["coretx", _, fl, tx, _, spent, oracle] =>
+    match fl.toNat?, parseSpend tx "0" spent oracle with
+    | some fl, some sp =>
+      showResult false ((List.range sp.tx.ins.length).foldl
+        (fun acc i => match acc with
+          | .ok _ => ({ sp with idx := i } : Spend).verify (Flags.ofNat fl)
+          | e => e) (.ok ()))
+    | _, _ => "bad-op"
+  | ["sha1", h] => match hexToList? h with | some b => listToHex (sha1 b) | none => "bad-op"
+  | ["ripemd160", h] => match hexToList? h with | some b => listToHex (ripemd160 b) | none => "bad-op"
+  | ["sha256", h] => match hexToList? h with | some b => listToHex (sha256 b) | none => "bad-op"
+  | ["hash160", h] => match hexToList? h with | some b => listToHex (hash160 b) | none => "bad-op"
+  | ["num", h, m, len] =>
+    match hexToList? h, len.toNat? with
+    | some b, some len =>
+      match decodeNum b (m == "1") len with
+      | .ok v => toString v
+      | .error _ => "err"
+    | _, _ => "bad-op"
+  | ["numenc", n] => match n.toInt? with | some n => listToHexTok (encodeNum n) | none => "bad-op"
+  | ["sighash", "legacy", tx, idx, script, ht] =>
+    match (hexToList? tx).bind parseTx, idx.toNat?, hexToList? script, ht.toNat? with
+    | some tx, some idx, some sc, some ht => listToHex (sighashLegacy tx idx sc ht)
+    | _, _, _, _ => "bad-op"
+  | ["sighash", "v0", tx, idx, script, ht, amt] =>
+    match (hexToList? tx).bind parseTx, idx.toNat?, hexToList? script, ht.toNat?, amt.toNat? with
+    | some tx, some idx, some sc, some ht, some amt => listToHex (sighashBip143 tx idx sc ht amt)
+    | _, _, _, _, _ => "bad-op"
+  | ["sighash", "tap", tx, idx, spent, ht, annex, leaf, pos] =>
+    match (hexToList? tx).bind parseTx, idx.toNat?, parseSpent spent, ht.toNat?, parseAnnex annex, pos.toNat? with
+    | some tx, some idx, some spent, some ht, some annex, some pos =>
+      let ext := if leaf == "none" then none else (hexE leaf).map (fun l => (l, pos))
+      match sighashTaproot tx idx spent ht annex ext with
+      | some d => listToHex d
+      | none => "none"
+    | _, _, _, _, _, _ => "bad-op"
+  | ["tok", s] =>
+    match hexToList? s with
+    | none => "bad-op"
+    | some b =>
+      let rec go : Nat → Bytes → List String → String
+        | _, [], acc => if acc.isEmpty then "-" else ",".intercalate acc.reverse
+        | 0, _ :: _, _ => "err"
+        | fuel + 1, s@(_ :: _), acc =>
+          match getOp s with
+          | none => "err"
+          | some (op, d, rest) => go fuel rest ((toString op ++ ":" ++ toString d.length) :: acc)
+      go b.length b []
+  | _ => "bad-op"
 
 end BV.C06.Driver
